@@ -21,6 +21,8 @@ import XotModel.Lemmas.FpxDedup
 import XotModel.Lemmas.FhistAtomic
 import XotModel.Lemmas.ArenaExamples
 import XotModel.Lemmas.ArenaStaleExamples
+import XotModel.Lemmas.FparseHistStep
+import XotModel.Lemmas.ParseWitness
 
 namespace XotModel.Props
 open XotModel
@@ -956,5 +958,114 @@ example : Arena.eitherRemoved Arena.sampleC ⟨2, 0⟩ ⟨3, 0⟩ = .done Arena.
      | .done a' (.ok ()) => !a'.wf && (a'.get ⟨3, 0⟩).map (·.parent) == some (some ⟨2, 0⟩) &&
          (a'.get ⟨2, 1⟩).map (·.first) == some (some ⟨3, 0⟩)
      | _ => false) = true := by decide
+
+end XotModel.Props
+
+/-! # ================================================================================================
+    # FULL HISTORIES (branch wt-parsehist): C06 for histories that PARSE and edit
+    # ================================================================================================
+
+  `PCall` (Model/FparseHist.lean): an extended API call (`Forest.XCall`) or `parse mode text` (the text through the
+  reference tokenizer and the builder, on the interning tables of the store; an accepted tree installed with
+  `IdStore.parseInto`).  State `PStore` = forest + interning tables + xml:id index.
+
+  A refused step — an API call that answers an error, a text that is rejected — leaves the FOREST and the
+  xml:id INDEX exactly as they were (`C06_atomic_full`); an API call leaves the interning tables too
+  (`C06_atomic_full_api`: the whole store is unchanged).  A rejected TEXT does not: the names, prefixes and
+  namespaces the builder interned before it hit the error stay in the tables
+  (`C06_rejected_parse_tables_Statement` is false of the code as it is: `<a><b></a>` leaves `a` and `b`
+  behind); nothing observable through a node handle depends on that — interning only appends, ids already
+  handed out keep their meaning.  The parser itself never panics (`C06_parse_outcomes_full`, from
+  `C03_string_nopanic`). -/
+
+namespace XotModel.Props
+open XotModel
+
+/-- ⟦C06_atomic_full⟧ **A refused step changes neither the forest nor the xml:id index**: an extended API
+    call on live arguments that answers an error, or the parse of a text that is rejected (every `?` and
+    `return Err` of `_parse` and of the epilogues of `parse` / `parse_fragment`: the half-built tree is
+    reachable from no handle, `id_nodes_map.insert` is not reached). -/
+theorem C06_atomic_full (s : PStore) (c : PCall) (hi : s.forest.Inv) (hl : c.liveArgs s.forest)
+    (h : PCall.refused (c.run s).2) : (c.run s).1.forest = s.forest ∧ (c.run s).1.index = s.index :=
+  PStore.fph_refused s c hi hl h
+
+/-- An API step that answers an error has changed NOTHING: forest, interning tables, index. -/
+theorem C06_atomic_full_api (s : PStore) (c : Forest.XCall) (e : XotError) (hi : s.forest.Inv)
+    (hl : c.liveArgs s.forest) (h : ((PCall.api c).run s).2 = .api (.err e)) : ((PCall.api c).run s).1 = s :=
+  PStore.fph_api_refused s c e hi hl h
+
+/-- A parse step that answers an error: the text was rejected with that error (no hypothesis on the
+    store at all), the store is as it was except for the interning tables, which are the ones the
+    builder left. -/
+theorem C06_atomic_full_parse (s : PStore) (m : Mode) (text : Str) (e : ParseErr)
+    (h : ((PCall.parse m text).run s).2 = .rejected e) :
+    ∃ env', parseString m s.env text = .err e env' ∧ ((PCall.parse m text).run s).1 = { s with env := env' } :=
+  PStore.fph_parse_rejected s m text e h
+
+/-- ⟦C06_parse_outcomes_full⟧ A parse step answers a document node — the store's next handle — or a parse
+    error; never a panic. -/
+theorem C06_parse_outcomes_full (s : PStore) (m : Mode) (text : Str) :
+    (∃ p, parseString m s.env text = .ok p ∧ ((PCall.parse m text).run s).2 = .parsed s.forest.next) ∨
+    (∃ e env', parseString m s.env text = .err e env' ∧ ((PCall.parse m text).run s).2 = .rejected e) := by
+  rcases PStore.fph_parseString_cases m s.env text with ⟨p, hp⟩ | ⟨e, env', hp⟩
+  · exact Or.inl ⟨p, hp, by rw [PStore.fph_run_parse_ok s hp]; rfl⟩
+  · exact Or.inr ⟨e, env', hp, by rw [PStore.fph_run_parse_err s hp]⟩
+
+/-- The only panics of the steps of a full history (on live arguments) are the documented ones of the
+    element-only accessors, and they change nothing. -/
+theorem C06_nopanic_full (s : PStore) (c : Forest.XCall) (hi : s.forest.Inv) (hl : c.liveArgs s.forest)
+    (h : ((PCall.api c).run s).2 = .api .panic) :
+    c.documentedPanic s.forest = true ∧ ((PCall.api c).run s).1 = s :=
+  PStore.fph_api_panic s c hi hl h
+
+/-- Along histories: after ANY well-kinded history of parses and API calls from `Xot::new()` (any
+    vocabulary), the next step, if refused, has changed neither forest nor index — the invariant the step
+    theorems need holds at every point of time (`C04_reach_full`). -/
+theorem C06_atomic_reach_full (env : Env) (pre : List PCall) (hw : ∀ c ∈ pre, c.wellKinded)
+    (c : PCall) (hl : c.liveArgs ((PStore.init env).run pre).forest)
+    (h : PCall.refused (c.run ((PStore.init env).run pre)).2) :
+    (c.run ((PStore.init env).run pre)).1.forest = ((PStore.init env).run pre).forest ∧
+    (c.run ((PStore.init env).run pre)).1.index = ((PStore.init env).run pre).index :=
+  C06_atomic_full _ c (PStore.fph_run_inv pre (PStore.fph_init_inv env) hw) hl h
+
+/-- The clause at full strength for the tables: a rejected parse leaves the WHOLE store as it was. -/
+def C06_rejected_parse_tables_Statement : Prop :=
+  ∀ (s : PStore) (m : Mode) (text : Str) (e : ParseErr),
+    ((PCall.parse m text).run s).2 = .rejected e → ((PCall.parse m text).run s).1 = s
+
+def c06RejectedText : Str := "<a><b></a>".toList
+
+/-- It does not hold of the code as it is: `<a><b></a>` is rejected (`InvalidCloseTag`) after `a` and `b`
+    were interned (`DocumentBuilder::open_element` → `add_name`): the name table has grown by two. -/
+theorem C06_rejected_parse_tables_false : ¬ C06_rejected_parse_tables_Statement := by
+  intro hall
+  have h1 : ∃ e, ((PCall.parse .document c06RejectedText).run (PStore.init Env.fresh)).2 = .rejected e := by
+    rcases C06_parse_outcomes_full (PStore.init Env.fresh) .document c06RejectedText with ⟨p, hp, _⟩ | ⟨e, _, _, h⟩
+    · have : (parseString .document Env.fresh c06RejectedText).err?.isSome = true := by decide +kernel
+      rw [show (PStore.init Env.fresh).env = Env.fresh from rfl] at hp
+      rw [hp] at this; cases this
+    · exact ⟨e, h⟩
+  obtain ⟨e, he⟩ := h1
+  have h2 := congrArg (fun s => s.env.names.length) (hall _ _ _ e he)
+  have h3 : ((PCall.parse .document c06RejectedText).run (PStore.init Env.fresh)).1.env.names.length = 4 := by
+    decide +kernel
+  simp only [h3] at h2
+  cases h2
+
+/-- Non-vacuity, closed (from `Xot::new()`): the accepted text of Props/C04's `fullCalls`, then a refused
+    `create_missing_prefixes` on a text node, a rejected text, the documented panic of `attributes_mut` on a
+    text node; forest and index as after the parse. -/
+def c06FullPre : List PCall := [.parse .document "<r><e xml:id=\"i\">t</e></r>".toList]
+example : (∀ c ∈ c06FullPre, c.wellKinded) ∧
+    ((PStore.init Env.fresh).run c06FullPre).forest.allHandles = [0, 1, 2, 3, 4] ∧
+    ((PStore.init Env.fresh).run c06FullPre).index = [((0, ['i']), 2)] := by decide +kernel
+example :
+    let s := (PStore.init Env.fresh).run c06FullPre
+    PCall.refused ((PCall.api (.createMissingPrefixes 4)).run s).2 ∧
+    PCall.refused ((PCall.parse .document c06RejectedText).run s).2 ∧
+    ((PCall.parse .document c06RejectedText).run s).1.forest.allHandles = [0, 1, 2, 3, 4] ∧
+    ((PCall.parse .document c06RejectedText).run s).1.index = [((0, ['i']), 2)] ∧
+    ((PCall.parse .fragment ['x']).run s).1.forest.allHandles = [0, 1, 2, 3, 4, 5, 6] := by
+  decide +kernel
 
 end XotModel.Props
